@@ -23,6 +23,11 @@ def attr(o, name):
     return {"$g": name, "o": o}
 
 
+def held(e):
+    """The client's long-lived instance of the object built by expression e (same instance across calls)."""
+    return {"$h": e}
+
+
 def ref(name):
     return {"$r": name}
 
